@@ -117,6 +117,15 @@ Fixpoint shoelace (l : list pt) : Z :=
   | a :: ((b :: _) as r) => fst a * snd b - fst b * snd a + shoelace r
   | _ => 0
   end.
+(* the coordinate of a way node, spelled out on the spec side (the model's [resolve] is proved
+   equal in C17/ProofsAbsorb.v): the location annotated on the way node when it is not (0,0), else
+   the location of the node with that id that comes last in the data, else none *)
+Definition spec_last_node (d : osm) (id : Z) : option node :=
+  hd_error (filter (fun n => n_id n =? id) (rev (nodes d))).
+Definition spec_resolve (d : osm) (wn : wnode) : option pt :=
+  if (wn_lon wn =? 0) && (wn_lat wn =? 0)
+  then option_map (fun n => (n_lon n, n_lat n)) (spec_last_node d (wn_id wn))
+  else Some (wn_lon wn, wn_lat wn).
 Definition spec_coords (d : osm) (w : way) : list pt := omap (resolve d) (w_nodes w).
 Definition spec_closed (c : list pt) : list pt :=
   match c with
@@ -218,6 +227,73 @@ Definition route_geom_ok (d : osm) (r : relation) (f : feature) : bool :=
   | None => false
   end.
 
+(* ---- which relations are multipolygons; which way an old-style one adopts (input only) ---- *)
+Definition is_mp (r : relation) : bool :=
+  let tt := tag_find (r_tags r) "type" in
+  negb (String.eqb tt "route") && (String.eqb tt "multipolygon" || String.eqb tt "boundary").
+Definition is_route (r : relation) : bool := String.eqb (tag_find (r_tags r) "type") "route".
+
+(* the way a multipolygon member stands for: the way of the data, else the nodes annotated on the
+   member (a way without tags) *)
+Definition member_way (d : osm) (m : member) : option way :=
+  match way_lookup d (m_ref m) with
+  | Some w => Some w
+  | None => match m_nodes m with [] => None | ns => Some (pseudo_way (m_ref m) ns) end
+  end.
+Definition is_outer_way (m : member) : bool :=
+  etype_eqb (m_type m) TWay && String.eqb (m_role m) "outer".
+Definition outer_members (r : relation) : list member := filter is_outer_way (r_members r).
+
+(* an old-style multipolygon (no interesting own tag, exactly one outer way member whose
+   resolvable coordinates are a valid ring) takes the identity of that way *)
+Definition adopts (d : osm) (r : relation) : list Z :=
+  if is_mp r && negb (has_interesting (r_tags r) (Some old_style_ignore)) then
+    match outer_members r with
+    | [m] => match member_way d m with
+             | Some w => if ring_invalid (omap (resolve d) (w_nodes w)) then [] else [w_id w]
+             | None => []
+             end
+    | _ => []
+    end
+  else [].
+Definition adopted (d : osm) (id : Z) : bool := existsb (fun r => memZ id (adopts d r)) (relations d).
+
+(* ---- W completeness: which ways are absorbed by a relation (input only) ----
+   A way of the data gets no feature of its own exactly when some relation absorbs it:
+   - a route relation has it as a way member and the way has no interesting tag;
+   - a multipolygon/boundary has it as an outer member and every interesting tag of the way is
+     repeated on the relation (same key and value; a tag with an empty value on the way counts
+     as repeated when the relation lacks the key), or as an inner member and the way has no
+     interesting tag;
+   - an old-style multipolygon adopts it (the polygon is then reported under the way's id). *)
+Definition route_absorbs (d : osm) (r : relation) (id : Z) : bool :=
+  existsb (fun m => etype_eqb (m_type m) TWay && (m_ref m =? id) &&
+                    match way_lookup d (m_ref m) with
+                    | Some w => negb (has_interesting (w_tags w) None)
+                    | None => false
+                    end) (r_members r).
+Definition mp_absorbs (d : osm) (r : relation) (id : Z) : bool :=
+  existsb (fun m => etype_eqb (m_type m) TWay && (m_ref m =? id) &&
+                    (String.eqb (m_role m) "outer" || String.eqb (m_role m) "inner") &&
+                    match member_way d m with
+                    | Some w => negb (has_interesting (w_tags w)
+                                        (if String.eqb (m_role m) "outer" then Some (r_tags r) else None))
+                    | None => false
+                    end) (r_members r)
+  || memZ id (adopts d r).
+Definition rel_absorbs (d : osm) (r : relation) (id : Z) : bool :=
+  if is_route r then route_absorbs d r id else if is_mp r then mp_absorbs d r id else false.
+Definition absorbed (d : osm) (id : Z) : bool := existsb (fun r => rel_absorbs d r id) (relations d).
+
+(* ---- R completeness: when does a route relation yield a feature (input only) ----
+   exactly when one of its member ways is in the data and has a resolvable coordinate *)
+Definition route_has_line (d : osm) (r : relation) : bool :=
+  existsb (fun m => etype_eqb (m_type m) TWay &&
+                    match way_lookup d (m_ref m) with
+                    | Some w => negb (is_nil (omap (resolve d) (w_nodes w)))
+                    | None => false
+                    end) (r_members r).
+
 (* ---- one feature against the input (E, N, W, R) ---- *)
 Definition find_node (d : osm) (id : Z) := find (fun n => n_id n =? id) (nodes d).
 Definition find_rel (d : osm) (id : Z) := find (fun r => r_id r =? id) (relations d).
@@ -249,7 +325,7 @@ Definition feature_ok (o : opts) (d : osm) (inwaypass : bool) (f : feature) : bo
       | Some r =>
           carries o d f (r_tags r) (r_meta r) true &&
           (let tt := tag_find (r_tags r) "type" in
-           if String.eqb tt "route" then route_geom_ok d r f
+           if String.eqb tt "route" then route_has_line d r && route_geom_ok d r f
            else (String.eqb tt "multipolygon" || String.eqb tt "boundary") &&
                 Bool.eqb (f_tainted f) (mp_tainted d r) &&
                 match f_geom f with GPoly _ | GMultiPoly _ => true | _ => false end)
@@ -257,20 +333,31 @@ Definition feature_ok (o : opts) (d : osm) (inwaypass : bool) (f : feature) : bo
       end
   end.
 
-(* features appear as: relation pass, then way pass (LineString / single-ring polygon of a
-   way), then node pass.  A way-typed feature is "in the way pass" when no relation-typed
-   feature follows it ... simpler and independent of order: when it is a line or has one ring
-   and the way is not an adopted outer.  We only need a sound over-approximation: try both. *)
+(* a way-typed feature comes from the way pass, or is an adopted outer way reported by its
+   old-style multipolygon: decided on the input ([adopted]) *)
 Definition feature_ok_any (o : opts) (d : osm) (f : feature) : bool :=
-  feature_ok o d true f || feature_ok o d false f.
+  match f_type f with
+  | TWay => feature_ok o d (negb (adopted d (f_ref f))) f
+  | _ => feature_ok o d true f
+  end.
 
 (* N completeness: every node that satisfies the rule has a point *)
 Definition nodes_complete (d : osm) (fs : list feature) : bool :=
   forallb (fun n => if spec_node_rule d n
                     then existsb (fun f => key_eqb (fkey f) (TNode, n_id n)) fs else true) (nodes d).
 
+(* W completeness: every way that no relation absorbs and that has two resolvable coordinates
+   has a feature *)
+Definition ways_complete (d : osm) (fs : list feature) : bool :=
+  forallb (fun w => if negb (absorbed d (w_id w)) && (2 <=? List.length (spec_coords d w))%nat
+                    then existsb (fun f => key_eqb (fkey f) (TWay, w_id w)) fs else true) (ways d).
+(* R completeness: every route relation with a member line has a feature *)
+Definition routes_complete (d : osm) (fs : list feature) : bool :=
+  forallb (fun r => if is_route r && route_has_line d r
+                    then existsb (fun f => key_eqb (fkey f) (TRel, r_id r)) fs else true) (relations d).
+
 Definition run_ok (o : opts) (d : osm) (fs : list feature) : bool :=
-  forallb (feature_ok_any o d) fs && nodes_complete d fs.
+  forallb (feature_ok_any o d) fs && nodes_complete d fs && ways_complete d fs && routes_complete d fs.
 
 (* ---- O ---- *)
 Definition erase (o : opts) (f : feature) : feature :=
@@ -319,3 +406,18 @@ Fixpoint extends (base incl : list feature) {struct incl} : bool :=
         && extends base' incl'
       else etype_eqb (f_type i) TRel && is_mp_geom (f_geom i) && extends base incl'
   end.
+
+(* the STRONGER reading of "IncludeInvalidPolygons only adds": every polygon keeps its own holes
+   (some polygon of the new geometry has the same outer ring and at least the same holes).  This is
+   false of the code (Properties/C17.v: C17_incl_keeps_holes_refuted); what holds is [extends]. *)
+Definition geom_polys' (g : geom) : list (list (list pt)) :=
+  match g with GPoly p => [p] | GMultiPoly ps => ps | _ => [] end.
+Definition poly_kept (p : list (list pt)) (qs : list (list (list pt))) : bool :=
+  match p with
+  | [] => true
+  | o :: hs => existsb (fun q => match q with
+                                 | [] => false
+                                 | o' :: hs' => line_eqb o o' && rings_sub hs hs'
+                                 end) qs
+  end.
+Definition polys_kept (g g' : geom) : bool := forallb (fun p => poly_kept p (geom_polys' g')) (geom_polys' g).
